@@ -126,7 +126,17 @@ Print Assumptions C12_unsupported.
 
 (** exactly the five records with tables are supported; the eleven others are not *)
 Theorem C12_supported_set :
-  map fst (filter (fun e => negb (table_empty (snd e))) all_infos) = ["ARM"; "AARCH64"; "I386"; "X32"; "X86_64"]%string /\
+  (forall key, In key (map fst (filter (fun e => negb (table_empty (snd e))) all_infos)) <->
+               In key ["ARM"; "AARCH64"; "I386"; "X32"; "X86_64"]%string) /\
   List.length all_infos = 16%nat.
-Proof. split; reflexivity. Qed.
+Proof.
+  split; [|reflexivity].
+  assert (H: forallb (fun k => existsb (String.eqb k) ["ARM"; "AARCH64"; "I386"; "X32"; "X86_64"]%string)
+                     (map fst (filter (fun e => negb (table_empty (snd e))) all_infos)) = true /\
+             forallb (fun k => existsb (String.eqb k) (map fst (filter (fun e => negb (table_empty (snd e))) all_infos)))
+                     ["ARM"; "AARCH64"; "I386"; "X32"; "X86_64"]%string = true) by (split; vm_compute; reflexivity).
+  destruct H as [H1 H2]. rewrite forallb_forall in H1, H2. intros key. split; intros Hin.
+  - specialize (H1 _ Hin). apply existsb_exists in H1. destruct H1 as [x [Hx E]]. apply String.eqb_eq in E. subst. exact Hx.
+  - specialize (H2 _ Hin). apply existsb_exists in H2. destruct H2 as [x [Hx E]]. apply String.eqb_eq in E. subst. exact Hx.
+Qed.
 Print Assumptions C12_supported_set.
